@@ -20,6 +20,15 @@ def _atom(x):
     return (t.__name__, x)
 
 
+def _keyform(k):
+    t = type(k)
+    if t in ATOMS:
+        return _atom(k)
+    if t is tuple or t is frozenset:
+        return (t.__name__,) + tuple(sorted((_keyform(i) for i in k), key=repr) if t is frozenset else [_keyform(i) for i in k])
+    return (t.__name__, repr(k))
+
+
 def canon(x, ordered=True, obj_hook=None):
     ids = {}
     keep = []
@@ -41,10 +50,12 @@ def canon(x, ordered=True, obj_hook=None):
         if t is list:
             return ('list', n, tuple(walk(i) for i in o))
         if t is dict:
-            items = [(walk(k), walk(v)) for k, v in o.items()]
+            pairs = list(o.items())
             if not ordered:
-                items.sort(key=repr)
-            return ('dict', n, tuple(items))
+                # order by the key's own canonical form (keys are hashable: atoms, dates, tuples of those -> no ids
+                # inside), *then* walk the values, so that numbering does not depend on insertion order
+                pairs.sort(key=lambda kv: repr(_keyform(kv[0])))
+            return ('dict', n, tuple((walk(k), walk(v)) for k, v in pairs))
         if t is set or t is frozenset:
             return (t.__name__, n, tuple(sorted((walk(i) for i in o), key=repr)))
         if obj_hook is not None:
@@ -69,6 +80,9 @@ def selftest():
     assert same(float('nan'), float('nan')) and not same(0.0, -0.0) and not same(1, 1.0) and not same(1, True)
     assert same({'a': 1, 'b': 2}, {'b': 2, 'a': 1}, ordered=False) and not same({'a': 1, 'b': 2}, {'b': 2, 'a': 1}, ordered=True)
     assert same({1, 2, 3}, {3, 2, 1}) and not same({1}, [1])
+    s1 = [1]
+    assert same({'b': s1, 'a': [s1, [2]]}, {'a': [s1, [2]], 'b': s1}, ordered=False)
+    assert not same({'b': s1, 'a': [s1, [2]]}, {'a': [[1], [2]], 'b': s1}, ordered=False)
     d = {}; d['k'] = d
     d2 = {}; d2['k'] = d2
     assert same(d, d2) and not same(d, {'k': {}})
